@@ -53,7 +53,9 @@ Qed.
 Lemma insert_before_in {A} (l : list A) k x y : In y (insert_before l k x) <-> y = x \/ In y l.
 Proof.
   unfold insert_before. rewrite in_app_iff. cbn [In].
-  rewrite <- (firstn_skipn k l) at 4. rewrite in_app_iff. intuition.
+  assert (H : In y l <-> In y (firstn k l) \/ In y (skipn k l)).
+  { rewrite <- (firstn_skipn k l) at 1. apply in_app_iff. }
+  rewrite H. intuition.
 Qed.
 
 Lemma insert_before_cons {A} (a : A) l k x : insert_before (a :: l) (S k) x = a :: insert_before l k x.
@@ -62,7 +64,9 @@ Proof. reflexivity. Qed.
 Lemma insert_before_length {A} (l : list A) k x : length (insert_before l k x) = S (length l).
 Proof.
   unfold insert_before. rewrite app_length. cbn [length].
-  rewrite <- (firstn_skipn k l) at 3. rewrite app_length. lia.
+  assert (H : length l = length (firstn k l) + length (skipn k l)).
+  { rewrite <- (firstn_skipn k l) at 1. apply app_length. }
+  lia.
 Qed.
 
 Lemma find_insert_other {A} (f : A -> bool) l k x : f x = false -> find f (insert_before l k x) = find f l.
@@ -178,7 +182,8 @@ Proof. revert i; induction l as [|e r IH]; intros i; cbn; [lia|]. destruct (e_ii
 Lemma reg_scan_fixed name len l i : i + length l = len ->
   reg_scan true name len l i i len = if has_name name l then None else Some (mex l i, mex l i).
 Proof.
-  revert i; induction l as [|e l IH]; intros i Hlen; cbn [reg_scan has_name existsb mex]; [reflexivity|].
+  revert i; induction l as [|e l IH]; intros i Hlen; cbn [reg_scan has_name existsb mex].
+  { cbn [length] in Hlen. replace len with i by lia. reflexivity. }
   rewrite Nat.eqb_refl. cbn [length] in Hlen.
   destruct (e_iid e =? i) eqn:Eid.
   - destruct (e_name e =? name); [reflexivity|]. cbn [orb]. apply IH. lia.
@@ -244,9 +249,9 @@ Lemma unreg_scan_nodup iid b l mx : NoDup (map e_iid l) ->
   (b = true -> mx <= m /\ forall e, In e r -> e_iid e < m).
 Proof.
   revert mx; induction l as [|e l IH]; intros mx Hd; cbn [unreg_scan].
-  - cbn. repeat split; try reflexivity; try lia. intros e [].
+  - cbn. repeat split; try reflexivity; try lia.
   - cbn [map] in Hd. inversion Hd as [|? ? Hn Hdl]; subst.
-    unfold remove_iid. cbn [filter]. unfold has_iid at 1 3. destruct (e_iid e =? iid) eqn:E.
+    unfold remove_iid. cbn [filter]. change (has_iid iid e) with (e_iid e =? iid). destruct (e_iid e =? iid) eqn:E.
     + apply Nat.eqb_eq in E. cbn [negb].
       assert (Hno : forall x, In x l -> has_iid iid x = false).
       { intros x Hx. unfold has_iid. apply Nat.eqb_neq. intros Hc. apply Hn. rewrite E, <- Hc. now apply in_map. }
@@ -265,7 +270,7 @@ Qed.
 (* ---- the client's table ---------------------------------------------------- *)
 Lemma cl_find_remove n m cl : cl_find m (cl_remove n cl) = if m =? n then None else cl_find m cl.
 Proof.
-  induction cl as [|[k i] cl IH]; cbn; [now destruct (m =? n)|].
+  unfold cl_remove. induction cl as [|[k i] cl IH]; cbn; [now destruct (m =? n)|].
   destruct (k =? n) eqn:E1; cbn.
   - apply Nat.eqb_eq in E1. subst k. rewrite IH. destruct (m =? n) eqn:E2; [reflexivity|].
     rewrite Nat.eqb_sym, E2. reflexivity.
@@ -377,16 +382,143 @@ Proof.
 Qed.
 
 (* unregister *)
-Lemma unregister_reg fx i s : NoDup (map e_iid (s_reg s)) ->
-  let '(s', r, ev) := unregister fx i s in
-  s_reg s' = remove_iid i (s_reg s) /\ s_cl s' = s_cl s /\
-  r = (match filter (has_iid i) (s_reg s) with [] => None | _ => Some i end) /\
-  (forall e, In e (s_reg s) -> e_iid e < s_maxp s) -> (forall e, In e (s_reg s') -> e_iid e < s_maxp s').
+Lemma unregister_nodup fx i s : NoDup (map e_iid (s_reg s)) ->
+  exists mp',
+    unregister fx i s =
+      ({| s_reg := remove_iid i (s_reg s); s_maxp := mp';
+          s_arrs := fst (unreg_found (fx_unreg fx) i (filter (has_iid i) (s_reg s)) (s_arrs s));
+          s_cl := s_cl s |},
+       match filter (has_iid i) (s_reg s) with [] => None | _ => Some i end,
+       snd (unreg_found (fx_unreg fx) i (filter (has_iid i) (s_reg s)) (s_arrs s))) /\
+    ((forall e, In e (s_reg s) -> e_iid e < s_maxp s) ->
+     forall e, In e (remove_iid i (s_reg s)) -> e_iid e < mp').
 Proof.
   intros Hd. unfold unregister.
   pose proof (unreg_scan_nodup i (S i =? s_maxp s) (s_reg s) 0 Hd) as Hsc.
   destruct (unreg_scan i (S i =? s_maxp s) (s_reg s) 0) as [[f r] m].
-  destruct Hsc as (Hf & Hr & Hm).
-  destruct (unreg_found (fx_unreg fx) i f (s_arrs s)) as [arrs' ev].
-  cbn [s_reg s_cl s_maxp]. intros (H1 & H2 & H3 & H4).
-Abort.
+  destruct Hsc as (Hf & Hr & Hm). subst f r.
+  destruct (unreg_found (fx_unreg fx) i (filter (has_iid i) (s_reg s)) (s_arrs s)) as [arrs' ev].
+  exists (if S i =? s_maxp s then m else s_maxp s). split; [reflexivity|].
+  intros Hmax e He. destruct (S i =? s_maxp s).
+  - now apply Hm.
+  - apply Hmax. unfold remove_iid in He. apply filter_In in He. tauto.
+Qed.
+
+Lemma remove_iid_RegInv s n i e arrs' mp' :
+  RegInv s -> In e (s_reg s) -> e_name e = n -> e_iid e = i ->
+  (forall x, In x (remove_iid i (s_reg s)) -> e_iid x < mp') ->
+  RegInv {| s_reg := remove_iid i (s_reg s); s_maxp := mp'; s_arrs := arrs'; s_cl := cl_remove n (s_cl s) |}.
+Proof.
+  intros [Hi Hn Hm Hcl] Hin Hen Hei Hmax. constructor; cbn [s_reg s_maxp s_cl].
+  - now apply incr_filter.
+  - now apply NoDup_map_filter.
+  - exact Hmax.
+  - intros m. rewrite cl_find_remove, Hcl. destruct (m =? n) eqn:E.
+    + apply Nat.eqb_eq in E. subst m.
+      replace (find_name n (remove_iid i (s_reg s))) with (@None entry); [reflexivity|].
+      symmetry. apply find_none_iff. intros y Hy. unfold remove_iid in Hy. apply filter_In in Hy.
+      destruct Hy as [Hy Hne]. apply Nat.eqb_neq. intros Hc.
+      assert (y = e) by (eapply NoDup_map_uniq; eauto; congruence). subst y.
+      unfold has_iid in Hne. rewrite Hei, Nat.eqb_refl in Hne. discriminate.
+    + unfold find_name, remove_iid. rewrite find_filter_same; [reflexivity|].
+      intros x Hx Hg. apply Bool.negb_false_iff in Hg. unfold has_iid in Hg. apply Nat.eqb_eq in Hg.
+      assert (x = e) by (eapply incr_uniq; eauto; congruence). subst x.
+      rewrite Hen. apply Nat.eqb_neq in E. apply Nat.eqb_neq. congruence.
+Qed.
+
+Lemma filter_has_iid_one lo reg e : incr lo reg -> In e reg -> filter (has_iid (e_iid e)) reg = [e].
+Proof.
+  revert lo; induction reg as [|x r IH]; intros lo Hi Hin; [destruct Hin|].
+  cbn in Hi. destruct Hi as [H1 H2]. cbn [filter]. unfold has_iid at 1.
+  destruct Hin as [->|Hin].
+  - rewrite Nat.eqb_refl. f_equal. apply filter_none. intros y Hy. unfold has_iid. apply Nat.eqb_neq.
+    pose proof (incr_ge _ _ _ H2 Hy). lia.
+  - pose proof (incr_ge _ _ _ H2 Hin). destruct (e_iid x =? e_iid e) eqn:E; [apply Nat.eqb_eq in E; lia|].
+    eapply IH; eauto.
+Qed.
+
+Lemma no_holder_no_entry s i : RegInv s -> cl_holds i (s_cl s) = false ->
+  forall e, In e (s_reg s) -> has_iid i e = false.
+Proof.
+  intros Hinv Hh e He. unfold has_iid. apply Nat.eqb_neq.
+  eapply cl_holds_false; [exact Hh|]. now apply entry_held.
+Qed.
+
+(* operations that leave the registry alone *)
+Lemma with_slot_reg s a n k s' r :
+  (forall x i s1 r1, k x i = (s1, r1) -> s_reg s1 = s_reg s /\ s_maxp s1 = s_maxp s /\ s_cl s1 = s_cl s) ->
+  with_slot s a n k = (s', r) -> s_reg s' = s_reg s /\ s_maxp s' = s_maxp s /\ s_cl s' = s_cl s.
+Proof.
+  intros Hk. unfold with_slot.
+  destruct (nth_error (s_arrs s) a) as [x|]; [|intros H; inversion H; auto].
+  destruct (a_alive x); [|intros H; inversion H; auto].
+  destruct (cl_find n (s_cl s)) as [i|]; [|intros H; inversion H; auto].
+  destruct (s_maxp s <=? i); [intros H; inversion H; auto|]. apply Hk.
+Qed.
+
+Lemma step_array_reg fx s o s' r :
+  match o with Reg _ _ _ _ | Unreg _ | UnregId _ => False | _ => True end ->
+  step fx s o = (s', r) -> s_reg s' = s_reg s /\ s_maxp s' = s_maxp s /\ s_cl s' = s_cl s.
+Proof.
+  destruct o; intros Ho; try contradiction; cbn [step].
+  - intros H; inversion H; auto.
+  - intros H; inversion H; auto.
+  - destruct (nth_error (s_arrs s) a) as [x|]; [|intros H; inversion H; auto].
+    destruct (a_alive x); intros H; inversion H; auto.
+  - apply with_slot_reg. intros x i s1 r1 H. inversion H. auto.
+  - apply with_slot_reg. intros x i s1 r1.
+    destruct (negb (nth i (a_slots (resize (fx_ioa fx) (s_maxp s) x i)) 0 =? 0)%N); [intros H; inversion H; auto|].
+    destruct (find_iid i (s_reg s)) as [e|]; [|intros H; inversion H; auto].
+    destruct (e_ctor e =? 0)%N; [intros H; inversion H; auto|].
+    destruct (ctorval (e_ctor e) (S a) =? 0)%N; [intros H; inversion H; auto|].
+    destruct (do_tas _ _ _ _) as [sl rr]. intros H; inversion H; auto.
+  - apply with_slot_reg. intros x i s1 r1.
+    destruct (do_tas _ _ _ _) as [sl rr]. intros H; inversion H; auto.
+Qed.
+
+Lemma RegInv_ext s s' : s_reg s' = s_reg s -> s_maxp s' = s_maxp s -> s_cl s' = s_cl s -> RegInv s -> RegInv s'.
+Proof. intros H1 H2 H3 [Hi Hn Hm Hcl]. constructor; rewrite ?H1, ?H2, ?H3; assumption. Qed.
+
+(* every operation preserves the registry invariant when the insertion rule is repaired *)
+Lemma step_RegInv fx s o : fx_reg fx = true -> RegInv s -> RegInv (fst (step fx s o)).
+Proof.
+  intros Hfx Hinv. destruct o as [n cb ctor dtor|n|i|n| |a|a n v|a n|a n v old].
+  - cbn [step]. rewrite Hfx.
+    destruct (register true n cb ctor dtor (s_reg s) (s_maxp s)) as [[r reg'] maxp'] eqn:R.
+    cbn [fst]. eapply register_RegInv; eauto.
+  - cbn [step]. destruct (cl_find n (s_cl s)) as [i|] eqn:C; [|exact Hinv].
+    destruct (held_entry _ _ _ Hinv C) as (e & Hin & Hen & Hei & _).
+    destruct (unregister_nodup fx i s (incr_NoDup _ _ (ri_incr _ Hinv))) as (mp' & Hu & Hmax).
+    rewrite Hu. cbn [fst s_reg s_maxp s_arrs].
+    eapply remove_iid_RegInv; eauto. apply Hmax. apply (ri_max _ Hinv).
+  - cbn [step]. destruct (cl_holds i (s_cl s)) eqn:C; [exact Hinv|].
+    destruct (unregister_nodup fx i s (incr_NoDup _ _ (ri_incr _ Hinv))) as (mp' & Hu & Hmax).
+    rewrite Hu. cbn [fst].
+    pose proof (no_holder_no_entry _ _ Hinv C) as Hno.
+    assert (Hrem : remove_iid i (s_reg s) = s_reg s).
+    { apply filter_all. intros x Hx. now rewrite (Hno x Hx). }
+    destruct Hinv as [Hi Hn Hm Hcl]. constructor; cbn [s_reg s_maxp s_cl]; rewrite ?Hrem; try assumption.
+    rewrite Hrem in Hmax. now apply Hmax.
+  - destruct (step fx s (Lookup n)) as [s' r] eqn:S. cbn [fst].
+    destruct (step_array_reg fx s (Lookup n) s' r I S) as (H1 & H2 & H3). eapply RegInv_ext; eauto.
+  - destruct (step fx s NewArr) as [s' r] eqn:S. cbn [fst].
+    destruct (step_array_reg fx s NewArr s' r I S) as (H1 & H2 & H3). eapply RegInv_ext; eauto.
+  - destruct (step fx s (DelArr a)) as [s' r] eqn:S. cbn [fst].
+    destruct (step_array_reg fx s (DelArr a) s' r I S) as (H1 & H2 & H3). eapply RegInv_ext; eauto.
+  - destruct (step fx s (SetV a n v)) as [s' r] eqn:S. cbn [fst].
+    destruct (step_array_reg fx s (SetV a n v) s' r I S) as (H1 & H2 & H3). eapply RegInv_ext; eauto.
+  - destruct (step fx s (GetV a n)) as [s' r] eqn:S. cbn [fst].
+    destruct (step_array_reg fx s (GetV a n) s' r I S) as (H1 & H2 & H3). eapply RegInv_ext; eauto.
+  - destruct (step fx s (Tas a n v old)) as [s' r] eqn:S. cbn [fst].
+    destruct (step_array_reg fx s (Tas a n v old) s' r I S) as (H1 & H2 & H3). eapply RegInv_ext; eauto.
+Qed.
+
+(* the invariant holds after every operation sequence *)
+Lemma run_RegInv fx ops : fx_reg fx = true -> forall s, RegInv s -> RegInv (fst (run fx s ops)).
+Proof.
+  intros Hfx. induction ops as [|o ops IH]; intros s Hinv; cbn [run]; [exact Hinv|].
+  pose proof (step_RegInv fx s o Hfx Hinv) as H1.
+  destruct (step fx s o) as [s1 x]. cbn [fst] in H1.
+  specialize (IH s1 H1). destruct (run fx s1 ops) as [s2 xs]. cbn [fst] in IH.
+  destruct x; cbn [fst]; assumption.
+Qed.
